@@ -6,6 +6,24 @@ import os
 VERIF = os.path.dirname(os.path.dirname(os.path.abspath(__file__)))
 
 CHECKS = {
+    "C01": {
+        "text": "P1 every modelled function x argument shapes as a single component (and under not()) on a file whose data records are all pairs over "
+        "a 13-cell alphabet plus ragged and blank records; P2 all ordered pairs (thorough: triples) from a 24-component interaction "
+        "alphabet in both logic modes over files of <=3 records; P3 boolean nests to depth 3 (4); P4 the pairs under 6 scan windows - "
+        "the real collect() against models/refinterp.py, line by line.",
+        "design": "3 / C01",
+        "note": "trusted: models/refinterp.py (written from docs/ with citations); lines on which the docs are silent are marked unknown by the model and not asserted (counted in the evidence)",
+        "technique": "bounded exhaustive enumeration of generated programs x files x modes on the real interpreter against a lock-step reference interpreter",
+    },
+    "C03": {
+        "text": "All ordered pairs (thorough: triples over a subset) of 29 writer components (assignments, tracking keys, arithmetic on the previous value, "
+        "tally/sum/subtotal/counter/first/count(value) with names and onmatch, push/pop/peek/peek_size, the four position counters) with a "
+        "filter in no/first/last position x files of <=3 records x 3 scan windows: final variables, scan_count, match_count, returned "
+        "lines and a per-line print of count_scans/line_number against models/refinterp.py.",
+        "design": "3 / C03",
+        "note": "trusted: models/refinterp.py; only named bookkeeping variables are compared; every()'s variables and aggregates of absent values are not asserted",
+        "technique": "bounded exhaustive enumeration of writer programs x files x windows on the real interpreter against a lock-step reference interpreter",
+    },
     "C04": {
         "text": "13 fail-family contexts (executing and non-executing positions) and two error programs under all 8 subsets of {fail, collect, stop} x "
         "every file of <=3 (thorough 4) records over 5 row kinds, compared with the run machine in models/refinterp.py on the final verdict, "
@@ -174,6 +192,9 @@ ENGINE = {
 }
 
 
+PENDING = {"C01", "C03"}  # property ids whose check exists but is not registered yet
+
+
 def main():
     props = []
     with open(os.path.join(VERIF, "properties.jsonl"), encoding="utf-8") as f:
@@ -185,6 +206,8 @@ def main():
     for p in props:
         pid = p["id"]
         c = CHECKS.get(pid)
+        if pid in PENDING:
+            c = None
         if not c:
             na.append({"property_id": pid, "reason": "check not built yet (planned in DESIGN.md section 3); nothing is claimed for it"})
             continue
